@@ -493,6 +493,7 @@ func (g unionReprKeyedReprBuilderGenerator) emitKeyAssembler(w io.Writer) {
 				panic("misuse: KeyAssembler held beyond its valid lifetime")
 			}
 			if ka.ca != 0 {
+				ka.state = maState_initial // the refused key ends this key assembly; AssembleKey starts the next
 				return schema.ErrNotUnionStructure{TypeName:"{{ .PkgName }}.{{ .Type.Name }}.Repr", Detail: "cannot add another entry -- a union can only contain one thing!"}
 			}
 			switch k {
@@ -506,6 +507,7 @@ func (g unionReprKeyedReprBuilderGenerator) emitKeyAssembler(w io.Writer) {
 				return nil
 			{{- end}}
 			}
+			ka.state = maState_initial // the refused key ends this key assembly; AssembleKey starts the next
 			return schema.ErrInvalidKey{TypeName:"{{ .PkgName }}.{{ .Type.Name }}.Repr", Key:&_String{k}} // TODO: error quality: ErrInvalidUnionDiscriminant ?
 		}
 	`, w, g.AdjCfg, g)
